@@ -204,6 +204,23 @@ func (sc *collection) doBuild(ctx context.Context) (Provider, error) {
 		}
 	}
 
+	// A value group depends on every one of its members: make that explicit in the
+	// graph so that cycles through a group are detected and group members are
+	// created before the services that consume the group.
+	for groupKey, members := range sc.groups {
+		if len(members) == 0 {
+			continue
+		}
+
+		if err := g.AddProviderDeferred(newGroupNode(groupKey, members)); err != nil {
+			return nil, &BuildError{
+				Phase:   "graph",
+				Details: fmt.Sprintf("failed to add group %v", formatType(groupKey.Type)),
+				Cause:   err,
+			}
+		}
+	}
+
 	// Phase 2: Validate graph (cycles detected here, not per-add)
 	if err := g.DetectCycles(); err != nil {
 		return nil, &BuildError{
@@ -756,3 +773,26 @@ func (c *collection) validateLifetimes() error {
 
 	return nil
 }
+
+// groupNode is the dependency-graph node of a value group. It depends on all
+// members of the group and is not a service itself.
+type groupNode struct {
+	key          GroupKey
+	dependencies []*reflection.Dependency
+}
+
+func newGroupNode(key GroupKey, members []*Descriptor) *groupNode {
+	deps := make([]*reflection.Dependency, 0, len(members))
+	for _, member := range members {
+		if member != nil {
+			deps = append(deps, &reflection.Dependency{Type: member.Type, Key: member.Key, Group: member.Group})
+		}
+	}
+
+	return &groupNode{key: key, dependencies: deps}
+}
+
+func (n *groupNode) GetType() reflect.Type                     { return n.key.Type }
+func (n *groupNode) GetKey() any                               { return nil }
+func (n *groupNode) GetGroup() string                          { return n.key.Group }
+func (n *groupNode) GetDependencies() []*reflection.Dependency { return n.dependencies }
